@@ -2,9 +2,96 @@
 
 package storage
 
+import (
+	"github.com/dgraph-io/badger/v3"
+
+	"github.com/emitter-io/emitter/internal/message"
+	vs "github.com/emitter-io/emitter/internal/verifspec"
+)
+
 // History store (properties C09, C06). lookup is reached with a limit taken from a client's `last=` option and,
 // through OnSurvey, from a query sent by another broker: safety for ANY query - no panic, and no allocation sized
 // by that number.
 
 //@ verify (*SSD).lookup pre=pre_SSD_lookup props=C09 makebound=4096
 func pre_SSD_lookup(s *SSD) bool { return s != nil && s.db != nil }
+
+// ---------------------------------------------------------------------------------------------------------
+// The history scan (property C06): the closure lookup runs inside the badger read transaction. badger's iterator,
+// the id algebra (NewPrefix / HasPrefix / Match: proved in internal/message under C06) and the value loader are
+// recorded calls here; the contract pins down HOW the scan uses them:
+//   - first page: one Seek, to NewPrefix(query ssid, until) - the newest possible key of the window;
+//   - continuation page: one Seek to EXACTLY the continuation id, then one Next before anything is looked at - the
+//     page starts strictly after that key, so no message appears on two pages (keys are unique);
+//   - a value is loaded only for a key that passed Match(query ssid, from, until) - never another contract's, never
+//     outside the window;
+//   - the scan goes on only while HasPrefix(query ssid, from) holds and fewer than Limit messages are collected;
+//   - the result holds at most Limit messages.
+// The loop is explored for one stored key in the quick tier and two in the thorough tier (stated bounded); completeness of an unbounded scan rests on the
+// key-order lemmas of C06.
+
+//@ assume (github.com/emitter-io/emitter/internal/message.ID).Match iface
+//@ assume (github.com/emitter-io/emitter/internal/message.ID).HasPrefix iface
+//@ assume github.com/emitter-io/emitter/internal/message.NewPrefix iface post=post_NewPrefix_assumed
+func post_NewPrefix_assumed(res0 message.ID) bool { return len(res0) == 8 }
+
+//@ assume loadMessage iface
+
+//@ verify (*SSD).lookup$1 pre=pre_lookup_scan post=post_lookup_seek_first,post_lookup_seek_next,post_lookup_guard,post_lookup_limit props=C06 as=scan1
+//@ loop (*SSD).lookup$1 0 unroll 1 bounded for=scan1
+//@ verify (*SSD).lookup$1 pre=pre_lookup_scan post=post_lookup_seek_first,post_lookup_seek_next,post_lookup_guard,post_lookup_limit props=C06 as=scan2 tier=thorough
+//@ loop (*SSD).lookup$1 0 unroll 2 bounded for=scan2
+func pre_lookup_scan(tx *badger.Txn, q lookupQuery, matches message.Frame) bool {
+	return tx != nil && len(matches) == 0 && cap(matches) <= 128
+}
+
+func specSameSsid(a, b message.Ssid) bool { // the same words (recorded arguments are frozen copies)
+	return len(a) == len(b) && vs.Forall(0, len(a), func(i int) bool { return a[i] == b[i] })
+}
+
+func post_lookup_seek_first(q lookupQuery) bool {
+	s := vs.TraceFind("Iterator).Seek")
+	if s < 0 || vs.TraceCount("Iterator).Seek") != 1 {
+		return false
+	}
+	if len(q.StartFromID) != 0 {
+		return true
+	}
+	p := vs.TraceFind("NewPrefix")
+	return p >= 0 && p < s && vs.TraceCount("NewPrefix") == 1 && specSameSsid(vs.TraceArg[message.Ssid](p, 0), q.Ssid) &&
+		vs.TraceArg[int64](p, 1) == q.Until && vs.SameBytes(vs.TraceArg[[]byte](s, 1), vs.TraceRet[message.ID](p, 0)) &&
+		(vs.TraceCount("Iterator).Next") == 0 || vs.TraceFind("Iterator).Item") < vs.TraceFind("Iterator).Next")) // nothing is skipped
+}
+
+func post_lookup_seek_next(q lookupQuery) bool {
+	if len(q.StartFromID) == 0 {
+		return true
+	}
+	s := vs.TraceFind("Iterator).Seek")
+	v := vs.TraceFind("Iterator).Valid")
+	if s < 0 || !vs.SameBytes(vs.TraceArg[[]byte](s, 1), q.StartFromID) || v < s {
+		return false
+	}
+	if !vs.TraceRet[bool](v, 0) { // the id is past the last key: nothing follows it
+		return vs.TraceCount("Iterator).Item") == 0 && vs.TraceCount("loadMessage") == 0
+	}
+	n, it := vs.TraceFind("Iterator).Next"), vs.TraceFind("Iterator).Item")
+	return n > v && (it < 0 || n < it)
+}
+
+func post_lookup_guard(q lookupQuery) bool {
+	return vs.Forall(0, vs.TraceCount("loadMessage"), func(k int) bool {
+		l := vs.TraceFindNth("loadMessage", k)
+		return l >= 4 && vs.TraceIs(l-1, "Iterator).Item") && vs.TraceIs(l-2, "ID).Match") && vs.TraceIs(l-3, "Item).Key") &&
+			vs.TraceRet[bool](l-2, 0) && specSameSsid(vs.TraceArg[message.Ssid](l-2, 1), q.Ssid) &&
+			vs.TraceArg[int64](l-2, 2) == q.From && vs.TraceArg[int64](l-2, 3) == q.Until &&
+			vs.SameBytes(vs.TraceArg[message.ID](l-2, 0), vs.TraceRet[[]byte](l-3, 0))
+	}) && vs.Forall(0, vs.TraceCount("ID).HasPrefix"), func(k int) bool {
+		h := vs.TraceFindNth("ID).HasPrefix", k)
+		return specSameSsid(vs.TraceArg[message.Ssid](h, 1), q.Ssid) && vs.TraceArg[int64](h, 2) == q.From
+	})
+}
+
+func post_lookup_limit(q lookupQuery, cur_matches message.Frame) bool {
+	return len(cur_matches) <= vs.TraceCount("loadMessage") && (len(cur_matches) == 0 || len(cur_matches) <= q.Limit)
+}
